@@ -132,11 +132,18 @@ Section MemberInfo.
   Variable gdt : ustate -> St -> Z -> Z -> St * ustate * outcome datatype.
   Variable I : ustate -> St -> Prop.
   Variable Good : Z -> datatype -> Prop.       (* what a definition returned for template id must satisfy *)
+  (* how the driver state evolves: [Step] (reflexive, transitive), and what a call establishes
+     about the requested id, stable under further steps: [Post] *)
+  Variable Step : ustate -> ustate -> Prop.
+  Variable Post : Z -> ustate -> Prop.
+  Hypothesis Step_refl : forall u, Step u u.
+  Hypothesis Step_trans : forall a b c, Step a b -> Step b c -> Step a c.
+  Hypothesis Post_step : forall tid u u', Post tid u -> Step u u' -> Post tid u'.
 
   (* the contract of the recursive _get_data_type on the structure types of these members *)
   Definition gdt_contract (ms : list Project.member) : Prop :=
     forall u s tid w m, I u s -> In m ms -> m_ty m = BStruct tid -> Z.land w 4095 = tid ->
-      exists s' u' d, gdt u s tid w = (s', u', Done d) /\ Good tid d /\ I u' s'.
+      exists s' u' d, gdt u s tid w = (s', u', Done d) /\ Good tid d /\ I u' s' /\ Step u u' /\ Post tid u'.
 
   (* the entry built for member m: [exp_member] over good nested definitions *)
   Definition info_good (m : Project.member) (info : LogixUpload.member) : Prop :=
@@ -147,7 +154,7 @@ Section MemberInfo.
     gdt_contract ms -> In m ms -> member_fields_ok m -> I u s ->
     exists s' u' info,
       parse_member_info St gdt u s (member_rec ab m) = (s', u', Done info)
-      /\ info_good m info /\ I u' s'.
+      /\ info_good m info /\ I u' s' /\ Step u u' /\ (forall tid, m_ty m = BStruct tid -> Post tid u').
   Proof.
     intros Hg Hin Hm HI.
     pose proof (member_type_word_range ab m Hm) as Hw.
@@ -180,7 +187,7 @@ Section MemberInfo.
           replace ((c + 8192) mod 4096) with c by lia. rewrite E4. reflexivity. }
       rewrite Hatomic. cbv beta iota.
       rewrite E5.
-      exists s, u. eexists. split; [reflexivity|]. split; [|exact HI].
+      exists s, u. eexists. split; [reflexivity|]. split; [|split; [exact HI | split; [apply Step_refl | intros ? H; discriminate]]].
       exists (fun _ => None). rewrite En. split; [destruct (c =? C_BOOL); reflexivity | intros ? H; discriminate].
     - (* a structure *)
       assert (Hword : 32768 <= member_type_word ab m /\ member_type_word ab m mod 4096 = tid
@@ -191,11 +198,12 @@ Section MemberInfo.
       pose proof (land_bit_zero (member_type_word ab m) 15 ltac:(lia) ltac:(lia)) as Eb. change (2 ^ 15) with 32768 in Eb.
       rewrite Eb, Hb15. cbn [Z.eqb]. cbv iota.
       pose proof (sym_template_id_eq (member_type_word ab m)) as Et. unfold sym_template_id in Et. rewrite Et, Hlow.
-      destruct (Hg u s tid (member_type_word ab m) m HI Hin Ety ltac:(rewrite Et; exact Hlow)) as (s' & u' & d & Eg & Hgood & HI').
+      destruct (Hg u s tid (member_type_word ab m) m HI Hin Ety ltac:(rewrite Et; exact Hlow)) as (s' & u' & d & Eg & Hgood & HI' & Hstep & Hpost).
       rewrite Eg.
       assert (Hinfo : member_info_word m = m_arr m) by (unfold member_info_word, is_bool_member; rewrite Ety; reflexivity).
       rewrite Hinfo.
-      exists s', u'. eexists. split; [reflexivity|]. split; [|exact HI'].
+      exists s', u'. eexists. split; [reflexivity|].
+      split; [|split; [exact HI' | split; [exact Hstep | intros tid' H; injection H as <-; exact Hpost]]].
       exists (fun _ => Some d). split; [reflexivity|]. intros tid' H. injection H as <-. eauto.
   Qed.
 
@@ -204,15 +212,17 @@ Section MemberInfo.
     gdt_contract all -> incl ms all -> Forall member_fields_ok ms -> I u s ->
     exists s' u' infos,
       parse_member_infos St gdt u s (map (member_rec ab) ms) = (s', u', Done infos)
-      /\ Forall2 info_good ms infos /\ I u' s'.
+      /\ Forall2 info_good ms infos /\ I u' s' /\ Step u u'
+      /\ (forall m tid, In m ms -> m_ty m = BStruct tid -> Post tid u').
   Proof.
     induction ms as [|m ms IH]; intros all u s Hg Hincl Hok HI.
-    - exists s, u, []. auto.
+    - exists s, u, []. repeat split; auto. intros ? ? [].
     - inversion Hok as [|? ? Hm Hms]; subst.
-      destruct (member_info_decode ab m all u s Hg (Hincl m (or_introl eq_refl)) Hm HI) as (s1 & u1 & info & E1 & En1 & HI1).
-      destruct (IH all u1 s1 Hg (fun x Hx => Hincl x (or_intror Hx)) Hms HI1) as (s2 & u2 & infos & E2 & En2 & HI2).
+      destruct (member_info_decode ab m all u s Hg (Hincl m (or_introl eq_refl)) Hm HI) as (s1 & u1 & info & E1 & En1 & HI1 & S1 & P1).
+      destruct (IH all u1 s1 Hg (fun x Hx => Hincl x (or_intror Hx)) Hms HI1) as (s2 & u2 & infos & E2 & En2 & HI2 & S2 & P2).
       exists s2, u2, (info :: infos). cbn [map parse_member_infos].
-      rewrite E1, E2. auto.
+      rewrite E1, E2. repeat split; eauto.
+      intros m' tid [<- | Hin] Ht; [eapply Post_step; [apply P1; exact Ht | exact S2] | eapply P2; eassumption].
   Qed.
 End MemberInfo.
 
@@ -297,42 +307,101 @@ Proof.
   rewrite text_eqb_same. destruct (Project.text_eqb n txt_ASCIISTRING82); reflexivity.
 Qed.
 
+(* the first name of the name area: "Name;tail" or the predefined "Name" *)
+Definition head_name (t : template) : text :=
+  t_name t ++ match t_tail t with Some s => SEMI :: s | None => [] end.
+
+Lemma template_names_eq t :
+  template_names t = head_name t ++ 0 :: flat_map (fun m => m_name m ++ [0]) (t_members t).
+Proof. unfold template_names, head_name. rewrite <- !app_assoc. reflexivity. Qed.
+
+(* the name area as served: the names and NUL padding, or (a definition that ends exactly one byte
+   after what the driver asks for) the names without their final NUL *)
+Definition names_area_ok (t : template) (area : bytes) : Prop :=
+  (exists k, area = template_names t ++ zeros k) \/ area ++ [0] = template_names t.
+
+Lemma flat_names_end (ms : list Project.member) : ms <> [] ->
+  exists X, flat_map (fun m => m_name m ++ [0]) ms = X ++ [0].
+Proof.
+  induction ms as [|m ms IH]; [contradiction|]. intros _.
+  destruct ms as [|m' r].
+  - exists (m_name m). cbn. rewrite app_nil_r. reflexivity.
+  - destruct (IH ltac:(discriminate)) as (X & E). exists ((m_name m ++ [0]) ++ X).
+    change (flat_map (fun m0 => m_name m0 ++ [0]) (m :: m' :: r))
+      with ((m_name m ++ [0]) ++ flat_map (fun m0 => m_name m0 ++ [0]) (m' :: r)).
+    rewrite E, app_assoc. reflexivity.
+Qed.
+
+Lemma split_names_cut : forall (ms : list Project.member) X,
+  Forall (fun m => contains_chr 0 (m_name m) = false /\ contains_chr 59 (m_name m) = false) ms ->
+  ms <> [] -> X ++ [0] = flat_map (fun m => m_name m ++ [0]) ms -> split_chr 0 X = map m_name ms.
+Proof.
+  induction ms as [|m ms IH]; intros X Hok Hne E; [contradiction|].
+  inversion Hok as [|? ? [H0 _] Hok']; subst.
+  destruct ms as [|m' r].
+  - cbn in E. rewrite app_nil_r in E. apply app_inj_tail in E. destruct E as [-> _].
+    cbn [map]. apply split_chr_last. exact H0.
+  - destruct (flat_names_end (m' :: r) ltac:(discriminate)) as (Y & EY).
+    change (flat_map (fun m0 => m_name m0 ++ [0]) (m :: m' :: r))
+      with ((m_name m ++ [0]) ++ flat_map (fun m0 => m_name m0 ++ [0]) (m' :: r)) in E.
+    rewrite EY in E. rewrite app_assoc in E. apply app_inj_tail in E. destruct E as [-> _].
+    rewrite <- app_assoc. cbn [app]. rewrite split_chr_sep by exact H0.
+    cbn [map]. f_equal. apply IH; [exact Hok' | discriminate | symmetry; exact EY].
+Qed.
+
+Lemma split_area t area :
+  names_ok t -> names_area_ok t area ->
+  exists extras, split_chr 0 area = head_name t :: map m_name (t_members t) ++ extras
+                 /\ Forall (fun n => n = []) extras.
+Proof.
+  intros (Hn0 & Hn59 & Htail & Hms) Harea.
+  assert (Hh0 : contains_chr 0 (head_name t) = false).
+  { unfold head_name. rewrite contains_chr_app, Hn0. destruct (t_tail t) as [tl|]; [|reflexivity].
+    cbn [contains_chr existsb orb]. exact Htail. }
+  destruct Harea as [(k & ->) | E].
+  - rewrite template_names_eq, <- app_assoc. cbn [app]. rewrite split_chr_sep by exact Hh0.
+    destruct (split_member_names (t_members t) k Hms) as (extras & Es & Hex).
+    exists extras. rewrite Es. auto.
+  - rewrite template_names_eq in E. destruct (t_members t) as [|m ms] eqn:Em.
+    + cbn [flat_map] in E. apply app_inj_tail in E. destruct E as [-> _].
+      exists []. rewrite split_chr_last by exact Hh0. split; [reflexivity | constructor].
+    + destruct (flat_names_end (m :: ms) ltac:(discriminate)) as (Y & EY).
+      rewrite EY in E. change (head_name t ++ 0 :: Y ++ [0]) with (head_name t ++ (0 :: Y) ++ [0]) in E.
+      rewrite app_assoc in E. apply app_inj_tail in E. destruct E as [-> _].
+      rewrite split_chr_sep by exact Hh0.
+      rewrite (split_names_cut (m :: ms) Y Hms ltac:(discriminate) (eq_sym EY)).
+      exists []. rewrite app_nil_r. split; [reflexivity | constructor].
+Qed.
+
 (* the template name and the member names (followed by empty names from the padding) *)
-Theorem names_of_blob ab t stype :
-  names_ok t -> Z.land stype 4095 = t_id t ->
+Theorem names_of_data ab t stype area :
+  names_ok t -> names_area_ok t area -> Z.land stype 4095 = t_id t ->
   exists extras,
-    template_and_member_names (template_blob ab t) (length (t_members t) * 8) stype
+    template_and_member_names (template_records ab t ++ area) (length (t_members t) * 8) stype
     = (Some (display_name (t_name t)), map m_name (t_members t) ++ extras).
 Proof.
-  intros (Hn0 & Hn59 & Htail & Hms) Hid.
-  unfold template_and_member_names, template_blob.
-  rewrite template_records_eq. rewrite <- !app_assoc.
+  intros Hok Harea Hid.
+  destruct (split_area t area Hok Harea) as (extras & Esplit & Hex).
+  destruct Hok as (Hn0 & Hn59 & Htail & Hms).
+  unfold template_and_member_names.
+  rewrite template_records_eq.
   rewrite <- (records_length ab (t_members t)), skipn_app_exact.
-  unfold split_nul, template_names. rewrite <- !app_assoc.
-  set (pad := zeros _).
-  destruct (split_member_names (t_members t) (length pad) Hms) as (extras & Esplit & Hex).
+  unfold split_nul. rewrite Esplit.
   assert (Hnosemi : Forall (fun n => contains_chr 59 n = false) (map m_name (t_members t) ++ extras)).
   { apply Forall_app. split.
     - rewrite Forall_map. eapply Forall_impl; [|exact Hms]. cbn. intros a [_ H]. exact H.
     - eapply Forall_impl; [|exact Hex]. cbn. intros a ->. reflexivity. }
   unfold predefined. rewrite Hid. fold (predefined_id (t_id t)).
+  unfold head_name.
   destruct (t_tail t) as [tail|] eqn:Et.
   - (* "Name;tail" *)
-    replace (t_name t ++ (SEMI :: tail) ++ [0] ++ flat_map (fun m => m_name m ++ [0]) (t_members t) ++ pad)
-      with ((t_name t ++ SEMI :: tail) ++ 0 :: flat_map (fun m => m_name m ++ [0]) (t_members t) ++ zeros (length pad))
-      by (subst pad; rewrite zeros_length, <- !app_assoc; reflexivity).
-    rewrite split_chr_sep by (rewrite contains_chr_app; cbn [contains_chr existsb]; rewrite Hn0; cbn;
-                              change (existsb (Z.eqb 0) tail) with (contains_chr 0 tail); rewrite Htail; reflexivity).
-    rewrite Esplit. cbn [names_loop].
+    cbn [names_loop].
     rewrite contains_chr_app. cbn [contains_chr existsb]. unfold SEMI. rewrite Z.eqb_refl, orb_true_r. cbn [orb].
     rewrite names_loop_some. cbn [rev app].
     rewrite before_semi_app by exact Hn59. rewrite andb_false_r.
     exists extras. rewrite display_name_eq. reflexivity.
   - (* the predefined form "Name" *)
-    replace (t_name t ++ [] ++ [0] ++ flat_map (fun m => m_name m ++ [0]) (t_members t) ++ pad)
-      with (t_name t ++ 0 :: flat_map (fun m => m_name m ++ [0]) (t_members t) ++ zeros (length pad))
-      by (subst pad; rewrite zeros_length; reflexivity).
-    rewrite split_chr_sep by exact Hn0. rewrite Esplit.
+    rewrite app_nil_r.
     rewrite names_loop_none by (constructor; assumption). cbn [rev app].
     rewrite Htail. cbn [andb].
     exists extras. rewrite display_name_eq. reflexivity.
@@ -363,32 +432,86 @@ Section Parse.
   Variable gdt : ustate -> St -> Z -> Z -> St * ustate * outcome datatype.
   Variable I : ustate -> St -> Prop.
   Variable Good : Z -> datatype -> Prop.
+  Variable Step : ustate -> ustate -> Prop.
+  Variable Post : Z -> ustate -> Prop.
+  Hypothesis Step_refl : forall u, Step u u.
+  Hypothesis Step_trans : forall a b c, Step a b -> Step b c -> Step a c.
+  Hypothesis Post_step : forall tid u u', Post tid u -> Step u u' -> Post tid u'.
 
-  Theorem parse_template_blob ab t stype u s :
-    gdt_contract St gdt I Good (t_members t) ->
-    Forall member_fields_ok (t_members t) -> names_ok t -> Z.land stype 4095 = t_id t ->
+  Theorem parse_template_blob ab t stype u s area :
+    gdt_contract St gdt I Good Step Post (t_members t) ->
+    Forall member_fields_ok (t_members t) -> names_ok t -> names_area_ok t area -> Z.land stype 4095 = t_id t ->
     I u s ->
     exists s' u' infos,
-      parse_template_data St gdt u s (template_blob ab t) (template_attrs_of t) stype
+      parse_template_data St gdt u s (template_records ab t ++ area) (template_attrs_of t) stype
       = (s', u', Done (exp_datatype infos t))
-      /\ Forall2 (info_good Good) (t_members t) infos /\ I u' s'.
+      /\ Forall2 (info_good Good) (t_members t) infos /\ I u' s' /\ Step u u'
+      /\ (forall m tid, In m (t_members t) -> m_ty m = BStruct tid -> Post tid u').
   Proof.
-    intros Hg Hok Hnames Hid HI.
+    intros Hg Hok Hnames Harea Hid HI.
     unfold parse_template_data. cbn [ta_count template_attrs_of].
     unfold template_member_count. rewrite Nat2Z.id.
-    assert (Echunks : info_chunks (length (t_members t)) (firstn (length (t_members t) * 8) (template_blob ab t))
+    assert (Echunks : info_chunks (length (t_members t)) (firstn (length (t_members t) * 8) (template_records ab t ++ area))
                       = map (member_rec ab) (t_members t)).
-    { unfold template_blob. rewrite template_records_eq, <- !app_assoc.
+    { rewrite template_records_eq.
       rewrite <- (records_length ab (t_members t)), firstn_app_exact.
       rewrite <- (app_nil_r (flat_map _ _)). apply info_chunks_records. }
     rewrite Echunks.
-    destruct (member_infos_decode St gdt I Good ab (t_members t) (t_members t) u s Hg (incl_refl _) Hok HI)
-      as (s' & u' & infos & E & En & HI').
+    destruct (member_infos_decode St gdt I Good Step Post Step_refl Step_trans Post_step ab (t_members t) (t_members t) u s Hg (incl_refl _) Hok HI)
+      as (s' & u' & infos & E & En & HI' & HS & HP).
     rewrite E.
-    destruct (names_of_blob ab t stype Hnames Hid) as (extras & Enames). rewrite Enames.
+    destruct (names_of_data ab t stype area Hnames Harea Hid) as (extras & Enames). rewrite Enames.
     exists s', u', infos. split; [|auto].
     unfold exp_datatype. unfold predefined. rewrite Hid. fold (predefined_id (t_id t)).
     rewrite member_loop_extras by (rewrite map_length; eapply Forall2_len; exact En).
     reflexivity.
   Qed.
 End Parse.
+
+(* ================================================================ what a template read delivers *)
+Lemma template_names_end t : exists X, template_names t = X ++ [0].
+Proof.
+  rewrite template_names_eq. destruct (t_members t) as [|m ms] eqn:E.
+  - exists (head_name t). reflexivity.
+  - destruct (flat_names_end (m :: ms) ltac:(discriminate)) as (Y & EY). rewrite EY.
+    exists (head_name t ++ 0 :: Y). rewrite <- app_assoc. reflexivity.
+Qed.
+
+Lemma core_length ab t :
+  Z.of_nat (length (template_records ab t ++ template_names t)) = template_core_len t.
+Proof.
+  rewrite app_length, template_records_eq, records_length. unfold template_core_len, template_member_count. lia.
+Qed.
+
+(* the bytes _read_template ends up with (it asks for definition_size * 4 - 21 bytes in total; the
+   target serves what exists of them): the records and a well-shaped name area *)
+Theorem served_shape ab t :
+  template_core_len t <= template_defsize t * 4 - 20 -> 0 <= template_defsize t * 4 - 21 ->
+  exists area,
+    firstn (Z.to_nat (Z.min (template_defsize t * 4 - 21) (Z.of_nat (length (template_blob ab t))))) (template_blob ab t)
+    = template_records ab t ++ area
+    /\ names_area_ok t area.
+Proof.
+  intros Hcore Hw. unfold template_blob. cbv zeta.
+  pose proof (core_length ab t) as Hlen.
+  set (core := template_records ab t ++ template_names t) in *.
+  set (want := template_defsize t * 4 - 21) in *.
+  destruct (Z.leb_spec (template_core_len t) want) as [Hle | Hgt].
+  - (* padded up to what is asked for *)
+    exists (template_names t ++ zeros (Z.to_nat want - length core)).
+    split; [|left; eauto].
+    rewrite firstn_all2.
+    + subst core. rewrite <- app_assoc. reflexivity.
+    + rewrite app_length, zeros_length. lia.
+  - (* one byte longer than what is asked for: the final NUL is not read *)
+    destruct (template_names_end t) as (X & EX).
+    exists X. split; [|right; symmetry; exact EX].
+    replace (Z.to_nat want - length core)%nat with O by lia. cbn [zeros]. rewrite app_nil_r.
+    subst core. rewrite EX, app_assoc.
+    replace (Z.to_nat (Z.min want (Z.of_nat (length ((template_records ab t ++ X) ++ [0])))))
+      with (length (template_records ab t ++ X)).
+    + apply firstn_app_exact.
+    + rewrite EX, app_assoc in Hlen.
+      rewrite (app_length (template_records ab t ++ X) [0]) in *. cbn [length] in *.
+      set (n := length (template_records ab t ++ X)) in *. lia.
+Qed.
